@@ -18,7 +18,7 @@ CFG = json.load(open(os.path.join(HERE, 'configs.json')))
 CURVES = {int(k): v for k, v in CFG['curves'].items()}
 ZC = {int(k): v for k, v in CFG['zc'].items()}
 PO = {int(k): v for k, v in CFG['po'].items()}
-GT = {int(k): v for k, v in json.load(open(os.path.join(HERE, 'gt.json'))).items()}
+GT = {int(k): v for k, v in json.load(open(os.path.join(HERE, 'gt.json'))).items()}   # inputs: 'g' of order r, 'small' {d: order d}
 TOY = [c for c in CURVES if c >= 100 and CURVES[c]['p'] < 256]     # one-byte fields: exhaustive streams
 # toy curve 107: 71-bit field, COFACTOR = [1, 3] (= 3 * 2^64 + 1), r = 31: r*P is cheap, so a dense stream of points
 DENSE = {107: 12}
@@ -626,30 +626,99 @@ def gen_zc(rng, scale):
 
 # ---------------------------------------------------------------------------------------
 # PairingOutput
+def po_field(e):
+    return target_field(e['p'], e['tower'], e['nr2'], e['nr6'], e['nr3'])
+
+
+def po_nr(e):
+    """a[3] of a po_de case: tower 32 (Fp6 = 2 over 3): [nr3]; towers 4 / 12: [nr2, nr6_c0, nr6_c1]"""
+    return [e['nr3']] if e['tower'] == 32 else [e['nr2']] + e['nr6']
+
+
+def ord_mod(q, d):
+    """multiplicative order of q modulo the prime d = degree of the smallest subfield F_{q^m} holding the elements of order d"""
+    m, t = 1, q % d
+    while t != 1:
+        t = t * q % d
+        m += 1
+    return m
+
+
+# proper subfields that are visible as leading coordinates of the tower representation: tower -> [(degree, #coords)]
+PO_SUBFIELDS = {4: [(1, 1), (2, 2)], 12: [(1, 1), (2, 2), (6, 6)], 32: [(1, 1), (3, 3)]}
+
+
 def gen_po(rng, scale):
+    """PairingOutput::deserialize_with_mode.  Validate::Yes must accept EXACTLY the x with x^r = 1 (the model computes
+    x^r by plain square-and-multiply in the tower).  Element classes per engine: 1, the GT generator and powers, -1,
+    -g; for EVERY prime d <= 50 dividing q^k - 1 an element of order d (gt.json holds one, x; the group is cyclic, so
+    x^j for a random j is a random element of that order; it lies in the subfield F_{q^m}, m = ord_d(q): tag sub<m>),
+    the product of a GT element with it, the product of two of them; random elements of the full field and of each
+    proper subfield visible in the tower; zero.  All four (Compress, Validate) modes."""
     for cid in sorted(PO):
         e = PO[cid]
-        p, tw = e['p'], e['tower']
-        F = target_field(p, tw, e['nr2'], e['nr6'])
-        g = F.el(GT[cid])
-        size = tw * fsize(p, 0)
-        args = lambda c, v, bs: [[cid, e['N'], c, v], [p], [tw], [e['nr2']] + e['nr6'], [e['r']], bs]
-        els = [(F.one(), 'one'), (g, 'order_r'), (fpow(F, g, rng.randrange(2, e['r'])), 'order_r'),
+        p, tw, k, r = e['p'], e['tower'], e['deg'], e['r']
+        F = po_field(e)
+        g = F.el(GT[cid]['g'])
+        small = {int(d): F.el(c) for d, c in GT[cid]['small'].items()}
+        size = k * fsize(p, 0)
+        heavy = k * p.bit_length() ** 2 > 3000000 and tw == 32      # cp6_782, bw6_767, bw6_761: keep the quick tier small
+        nr = po_nr(e)
+        args = lambda c, v, bs: [[cid, e['N'], c, v], [p], [tw], nr, [r], bs]
+        tag = 'po%d' % cid
+        gk = fpow(F, g, rng.randrange(2, r))
+        els = [(F.one(), 'one'), (g, 'order_r'), (gk, 'order_r'), (F.mul(g, g), 'order_r'),
                (F.neg(F.one()), 'minus_one'), (F.neg(g), 'order_2r'), (F.zero(), 'zero'),
-               (F.rand(rng), 'random_elt'), (F.el([rng.randrange(p)] + [0] * (tw - 1)), 'base_field_elt')]
+               (F.rand(rng), 'random_elt')]
         for _ in range(scale - 1):
-            els.append((fpow(F, g, rng.randrange(2, e['r'])), 'order_r'))
+            els.append((fpow(F, g, rng.randrange(2, r)), 'order_r'))
+            els.append((fpow(F, gk, rng.randrange(2, 1 << 20)), 'order_r'))
             els.append((F.rand(rng), 'random_elt'))
+        # random elements of the proper subfields that are visible in the tower (leading coordinates, the others zero)
+        for m, nco in PO_SUBFIELDS[tw]:
+            for _ in range(1 if scale == 1 else 3):
+                els.append((F.el([rng.randrange(p) for _ in range(nco)] + [0] * (k - nco)), 'subfield_elt/sub%d' % m))
+        # small prime orders d | q^k - 1
+        sm = []
+        for d in sorted(small):
+            m = ord_mod(p, d)
+            assert k % m == 0
+            for _ in range(1 if scale == 1 else 8):
+                x = fpow(F, small[d], rng.randrange(1, d))
+                sm.append((d, m, x))
+                els.append((x, 'small_order/d%d/sub%d' % (d, m)))
+                gg = rng.choice([g, gk])
+                els.append((F.mul(gg, x), 'order_r*small/d%d/sub%d' % (d, m)))
+        # products of two / of all small-order elements (composite small order), with and without a GT factor
+        if len(sm) >= 2:
+            for _ in range(1 if scale == 1 else 12):
+                (d1, m1, x1), (d2, m2, x2) = rng.sample(sm, 2)
+                if d1 == d2:
+                    continue
+                y = F.mul(x1, x2)
+                els.append((y, 'small_order/d%dx%d' % (min(d1, d2), max(d1, d2))))
+                els.append((F.mul(gk, y), 'order_r*small/d%dx%d' % (min(d1, d2), max(d1, d2))))
+            y = F.one()
+            for d in sorted(small):
+                y = F.mul(y, small[d])
+            els.append((y, 'small_order/all'))
+            els.append((F.mul(g, y), 'order_r*small/all'))
         for x, cl in els:
             bs = enc_ext(p, F.co(x), 0, 0)
-            for (c, v) in (MODES if cl in ('order_r', 'random_elt') else [(1, 1), (0, 0)]):
+            modes = MODES
+            if scale == 1 and cl in ('one', 'minus_one', 'zero', 'order_2r'):
+                modes = [(1, 1), (0, 0), (0, 1)]
+            for (c, v) in modes:
                 yield 'po_de', args(c, v, bs), 'po/%s/v%d' % (cl, v)
         full = enc_ext(p, F.co(g), 0, 0)
-        for cut in sorted(set(list(range(0, size, 1 if (scale > 1 or tw == 4) else 11)) + [size - 1])):
-            yield 'po_de', args(1, 1, full[:cut]), 'po/truncated'
+        step = 1 if (scale > 1 or tw == 4) else (29 if heavy else 11)
+        n0 = fsize(p, 0)
+        cuts = set(range(0, size, step)) | {size - 1, size - 2, 1} | {j * n0 + dd for j in range(1, k) for dd in (-1, 0, 1)}
+        for cut in sorted(c for c in cuts if 0 <= c < size):
+            yield 'po_de', args(1, rng.randrange(2), full[:cut]), 'po/truncated'
         for _ in range(2 * scale):
-            bs = list(full); j = rng.randrange(tw); n = fsize(p, 0)
-            bs[j * n:(j + 1) * n] = le(bad_int(rng, p, n), n)
+            bs = list(full); j = rng.randrange(k)
+            bs[j * n0:(j + 1) * n0] = le(bad_int(rng, p, n0), n0)
             yield 'po_de', args(1, rng.randrange(2), bs), 'po/coord_ge_p'
             yield 'po_de', args(1, 1, full + [rng.randrange(256)] * rng.randrange(1, 9)), 'po/valid+trailing'
             yield 'po_de', args(1, 1, [rng.randrange(256) for _ in range(size)]), 'po/random_bytes'
@@ -681,7 +750,7 @@ def adv_size(case):
     if op == 'f_de':
         return a[2][0] * fsize(a[1][0], 0)
     if op == 'po_de':
-        return a[2][0] * fsize(a[1][0], 0)
+        return (6 if a[2][0] == 32 else a[2][0]) * fsize(a[1][0], 0)
     p, deg = a[1]
     comp = a[0][2]
     if op == 'zc_de':
@@ -776,7 +845,11 @@ RULE = ('byte strings offered to deserialize_with_mode in all 4 modes (x affine/
         'off-curve (x, y) incl. y+1 and, for the bls12_381 override, points of the other twists y^2 = x^3 + 4k and of the '
         'singular curve; x (y) without a square root; every flag combination (SW 2 bits, TE, ZCash 3 bits), infinity with '
         'non-zero bits, stray bits; integers >= p in any coordinate; EVERY truncation length 0..size-1; longer-than-needed '
-        'input; random / all-ones / all-zero bytes; PairingOutput: 1, order r, -1, order 2r, 0, random, base-field elements; '
+        'input; random / all-ones / all-zero bytes; PairingOutput (8 engines: target fields Fp12 = 2-3-2 [bls12_381 x2, bn254], '
+        'Fp4 [mnt4_298], Fp6 = 2 over 3 [cp6_782, bw6_767, bw6_761, mnt6_298]): 1, order r (generator, powers), -1, order 2r, 0, '
+        'random, random elements of each proper subfield, an element of order d for EVERY prime d <= 50 dividing q^k - 1 '
+        '(tagged with the subfield F_{q^m}, m = ord_d(q), it lies in), GT element x small-order element, products of '
+        'small-order elements, all 4 (Compress, Validate) modes; '
         'Valid::check / batch_check with the failing element at any position; toy curves (h = 1, 2, 4, 8): every 1-byte string '
         'and every 2-byte string; curve grid = every shipped SW / TE configuration with cofactor > 1 (base field Fq, Fq2, Fq3; '
         'bls12_377 G1/G2/G1-TE, bw6_761, bw6_767, cp6_782, mnt4_298/753 G2, mnt6_298/753 G2, bls12_381, bn254 G2, jubjub, '
@@ -785,7 +858,8 @@ RULE = ('byte strings offered to deserialize_with_mode in all 4 modes (x affine/
         'a 71-bit field); the COFACTOR slice is passed limb by limb; '
         'non-trivial = non-empty payload; distinct = distinct case lines')
 TRUSTED = ['props/C10/configs.json, gt.json (constants dumped from the compiled crates; re-compared with the compiled constants by '
-           'the harness in every case; gt.json holds inputs only)',
+           'the harness in every case; gt.json holds inputs only: one element of order r and one of each small prime order per '
+           'target field, computed by mkconfigs.py as u^((q^k-1)/d))',
            'the byte strings are generator inputs (built by prop.py), not expected values',
            'imported model files of package C09 (coq/C09/{Bytes,FpCodec,PointCodec,Exec}.v)']
 ASSUMPTIONS = ['a field element is modelled by its standard-form integer; reader = slice reader (read_exact fails on short input)',
